@@ -53,6 +53,7 @@ import hashlib
 import http.cookiejar
 import os
 import tempfile
+import threading
 import uuid
 import xml.etree.ElementTree as ET
 import urllib.request as urllib_request
@@ -133,6 +134,11 @@ AUTH_PLACEHOLDER = "{:0<32}".format("anonymous")
 
 
 logger = logging.getLogger(__name__)
+
+
+# Serializes updates of the on-disk FI profile cache by concurrent requests
+# (e.g. the thread pool used by ``ofxget scan``).
+_PROFILE_CACHE_LOCK = threading.Lock()
 
 
 # Statement request data containers
@@ -534,7 +540,9 @@ class OFXClient:
 
             # Cache the updated PROFRS sent by the server
             response.seek(0)
-            self._write_cached_profile(persistpath, response.read())
+            self._write_cached_profile(
+                persistpath, response.read(), dtprofup_server
+            )
 
         # Rewind PROFRS so it can be returned cleanly after having been parsed.
         response.seek(0)
@@ -570,26 +578,37 @@ class OFXClient:
 
         return BytesIO(data), dtprofup
 
-    @staticmethod
-    def _write_cached_profile(path, data: bytes) -> None:
+    @classmethod
+    def _write_cached_profile(
+        cls, path, data: bytes, dtprofup: datetime.datetime
+    ) -> None:
         """
         Replace cached PROFRS atomically: write a temporary file in the same
         directory then rename it into place, so the cache never holds a partial
         or interleaved write.
+
+        Never replace a cached profile by an older one: a concurrent request may
+        have cached a newer profile since this request read the cache.
         """
-        fd, tmppath = tempfile.mkstemp(
-            dir=str(path.parent), prefix=path.name + ".", suffix=".tmp"
-        )
-        try:
-            with os.fdopen(fd, "wb") as f:
-                f.write(data)
-            os.replace(tmppath, path)
-        except BaseException:
+        with _PROFILE_CACHE_LOCK:
+            _, dtprofup_cached = cls._read_cached_profile(path)
+            if dtprofup_cached is not None and dtprofup_cached > dtprofup:
+                logger.info("Cached profile is newer than response; not replacing")
+                return
+
+            fd, tmppath = tempfile.mkstemp(
+                dir=str(path.parent), prefix=path.name + ".", suffix=".tmp"
+            )
             try:
-                os.unlink(tmppath)
-            except OSError:
-                pass
-            raise
+                with os.fdopen(fd, "wb") as f:
+                    f.write(data)
+                os.replace(tmppath, path)
+            except BaseException:
+                try:
+                    os.unlink(tmppath)
+                except OSError:
+                    pass
+                raise
 
     def _request_profile(
         self,
